@@ -23,6 +23,10 @@ EXTENDS Resample, TLC
 CONSTANTS N, NI, B, NP, BP, PairStride, PairMinGood, NS, StackOffsets, StackGrids, Families
 VARIABLES c, exp
 
+(* values for StackOffsets (a cfg file cannot hold negative numbers) *)
+QuickOffsets == {3, -7, 20}
+ThoroughOffsets == {3, 7, 20, -3, -7, -20}
+
 (* ---------- patterns ---------- *)
 PatOf(n, bits) == [k \in 1 .. n |-> (bits \div (2 ^ (k - 1))) % 2 = 1]
 Inflate(good, b) == [r \in 1 .. (Len(good) * b) |-> good[((r - 1) \div b) + 1]]
